@@ -21,7 +21,15 @@ func bigResponse(id [12]byte, tag string, size int, r *gen.Rand) []byte {
 		// a header-only response: nothing but type, length 0, cookie and id
 		return append([]byte(nil), stun.MustBuild(stun.BindingSuccess, stun.NewTransactionIDSetter(id)).Raw...)
 	}
-	setters := []stun.Setter{stun.BindingSuccess, stun.NewTransactionIDSetter(id), stun.NewSoftware(tag)}
+	if size <= 200 && r.Chance(1, 3) {
+		// any message type, attributes that do not verify or do not parse: routing looks at the transaction id only
+		return dressedResponse(id, tag, r.U64())
+	}
+	typ := stun.BindingSuccess
+	if r.Chance(1, 4) {
+		typ = stun.NewType(stun.Method(r.Intn(0x1000)), stun.MessageClass(r.Intn(4)))
+	}
+	setters := []stun.Setter{typ, stun.NewTransactionIDSetter(id), stun.NewSoftware(tag)}
 	m := stun.MustBuild(setters...)
 	for len(m.Raw)+8 <= size {
 		n := size - len(m.Raw) - 4
@@ -108,7 +116,24 @@ func c12Many(c *core.Ctx, r *gen.Rand, n int, fallback bool) {
 		if late[id] {
 			kind = "late"
 		}
-		plan = append(plan, c12Datagram{id, bigResponse(id, fmt.Sprintf("resp-%d-%x", i, r.U64()), size, r), kind})
+		resp := bigResponse(id, fmt.Sprintf("resp-%d-%x", i, r.U64()), size, r)
+		if n > 1 && len(resp) <= 700 && r.Chance(1, 5) {
+			// bytes behind the message's declared length belong to no message - also when they look like one: here a
+			// complete message carrying the id of ANOTHER transaction in flight (or, sometimes, of this one, or zeros)
+			other := ids[(i+1+r.Intn(n-1))%n]
+			var tail []byte
+			switch r.Intn(4) {
+			case 0:
+				tail = make([]byte, 1+r.Intn(40))
+			case 1:
+				tail = bigResponse(id, fmt.Sprintf("tail-self-%d", i), 20+r.Intn(60), r)
+			default:
+				tail = bigResponse(other, fmt.Sprintf("tail-other-%d-%x", i, r.U64()), 20+r.Intn(200), r)
+			}
+			resp = append(resp, tail...)
+			c.Count("datagrams_with_a_message_behind_the_message", 1)
+		}
+		plan = append(plan, c12Datagram{id, resp, kind})
 		if r.Chance(1, 5) {
 			plan = append(plan, c12Datagram{id, bigResponse(id, fmt.Sprintf("dup-%d-%x", i, r.U64()), size, r), "duplicate"})
 		}
